@@ -1,0 +1,79 @@
+//go:build verif
+
+package synchronization
+
+// Contracts for property C05 (the saved synchronization state stays valid and
+// faithful under any transition outcome): what the synchronization cycle
+// hands to core.Apply and what it saves. Comment-only file: compiled only
+// under the "verif" build tag, contains no code. The "//@" lines are read by
+// govc. (The call-site contracts of C11 for the same functions are in
+// zz_contracts_verif.go; blocks for one function are merged.)
+
+// An endpoint reports one result per requested transition unless the whole
+// operation failed. Trusted (interface contract): the local endpoint returns
+// core.Transition's result list, the remote client rejects responses with a
+// different number of results.
+//@ iface Endpoint.Transition
+//@   params self, ctx, transitions
+//@   ensures[perresult] result3 == nil ==> len(result0) == len(transitions)
+
+// The goroutines that perform the transitions. On return, the shared result
+// variables hold exactly what the endpoint returned; a failed (or cancelled)
+// transition operation contributes no ancestor change, a completed one
+// contributes, per transition and in order, the transition's path with the
+// entry the endpoint REPORTED for it (not the entry the plan wanted there).
+//@ func (*controller).synchronize$7
+//@   requires[reported] len(αChanges) == 0 && cap(αChanges) == 0
+//@   at call Endpoint.Transition let epResults = result0
+//@   at call Endpoint.Transition let epErr = result3
+//@   ensures[reported] αResults == epResults && αTransitionErr == epErr
+//@   ensures[reported] αTransitionErr != nil ==> len(αChanges) == 0
+//@   ensures[reported] cap(αChanges) == 0 || fresh(αChanges)
+//@   ensures[reported] αTransitionErr == nil ==> len(αChanges) == len(αTransitions)
+//@   ensures[reported] αTransitionErr == nil ==> forall t in 0..len(αTransitions) :: αChanges[t] != nil && αChanges[t].Path == αTransitions[t].Path && αChanges[t].New == αResults[t]
+//@   loop 1 invariant[reported] -1 <= rangeindex && rangeindex < len(αTransitions) && len(αChanges) == rangeindex + 1 && (cap(αChanges) == 0 || fresh(αChanges))
+//@   loop 1 invariant[reported] forall t in 0..rangeindex+1 :: αChanges[t] != nil && αChanges[t].Path == αTransitions[t].Path && αChanges[t].New == αResults[t]
+
+//@ func (*controller).synchronize$8
+//@   requires[reported] len(βChanges) == 0 && cap(βChanges) == 0
+//@   at call Endpoint.Transition let epResults = result0
+//@   at call Endpoint.Transition let epErr = result3
+//@   ensures[reported] βResults == epResults && βTransitionErr == epErr
+//@   ensures[reported] βTransitionErr != nil ==> len(βChanges) == 0
+//@   ensures[reported] cap(βChanges) == 0 || fresh(βChanges)
+//@   ensures[reported] βTransitionErr == nil ==> len(βChanges) == len(βTransitions)
+//@   ensures[reported] βTransitionErr == nil ==> forall t in 0..len(βTransitions) :: βChanges[t] != nil && βChanges[t].Path == βTransitions[t].Path && βChanges[t].New == βResults[t]
+//@   loop 1 invariant[reported] -1 <= rangeindex && rangeindex < len(βTransitions) && len(βChanges) == rangeindex + 1 && (cap(βChanges) == 0 || fresh(βChanges))
+//@   loop 1 invariant[reported] forall t in 0..rangeindex+1 :: βChanges[t] != nil && βChanges[t].Path == βTransitions[t].Path && βChanges[t].New == βResults[t]
+
+// The cycle. Names bound at calls: planBase / planChanges are the ancestor the
+// plan was computed against and the ancestor changes reconciliation produced;
+// withAlpha / withBeta the change list after alpha's and then beta's reported
+// changes were appended; applied / applyErr are what core.Apply returned.
+//   collected  Apply is given the ancestor of the plan and exactly
+//              append(append(planChanges, alpha's changes...), beta's
+//              changes...): reconciled ancestor changes first, then what the
+//              endpoints reported, in transition order
+//   reported   (with the goroutine contracts above) a failed transition
+//              operation contributes nothing
+//   validated  the entry validated for synchronizability is Apply's result
+//   saved      the archive written to the archive path holds Apply's
+//              (successful) result, and that entry has passed
+//              EnsureValid(true) on this path; nothing else is stored in
+//              between
+//@ func (*controller).synchronize
+//@   at call core.Reconcile let planBase = arg0
+//@   at call core.Reconcile let planChanges = result0
+//@   at call append#1 assert[collected] arg0 == planChanges && arg1 == αChanges
+//@   at call append#1 let withAlpha = result
+//@   at call append#2 assert[collected] arg0 == withAlpha && arg1 == βChanges
+//@   at call append#2 let withBeta = result
+//@   at call core.Apply assert[collected] arg0 == planBase && arg0 == ancestor && arg1 == withBeta
+//@   at call core.Apply assert[reported] αTransitionErr != nil ==> len(αChanges) == 0
+//@   at call core.Apply assert[reported] βTransitionErr != nil ==> len(βChanges) == 0
+//@   at call core.Apply assert[reported] αTransitionErr == nil ==> len(αChanges) == len(αTransitions)
+//@   at call core.Apply assert[reported] βTransitionErr == nil ==> len(βChanges) == len(βTransitions)
+//@   at call core.Apply let applied = result0
+//@   at call core.Apply let applyErr = result1
+//@   at call (*Entry).EnsureValid assert[validated] arg0 == applied && arg1 && applyErr == nil
+//@   at call encoding.MarshalAndSaveProtobuf assert[saved] arg0 == c.archivePath && arg1 == box(archive) && archive.Content == applied && applyErr == nil && core.validtree(applied, true)
